@@ -86,7 +86,9 @@ DefaultFits(d) == d.def = <<>> \/ SeqToSet(d.def[1]) \subseteq 0..(d.n - 1)
 (*    list that gathers more bits than the base has cannot be represented;    *)
 (*    whether they compile is "unspecified" and not judged.                   *)
 DupBits(f) == f.ranges # <<>> /\ RangesOrdered(f) /\ ~Inj(Pos(f, 0))
-Verdict(d) == IF ~Valid(d) THEN "reject"
+(* supported base types: u8..u128 and the arbitrary-int widths, i.e. uN with 1 <= N <= 128 *)
+BaseOK(d) == d.n \in 1..128
+Verdict(d) == IF ~BaseOK(d) \/ ~Valid(d) THEN "reject"
               ELSE IF \E j \in 1..Len(d.fields) : DupBits(d.fields[j]) THEN "unspecified"
               ELSE "accept"
 
